@@ -92,7 +92,10 @@ def gen_record(rng, r):
                     kind = "det"
                 # refit: estimator objects are fitted this many times before the result is taken (int seeds only);
                 # not part of the comparison key: the number of earlier fits must not matter
-                ops.append({"op": "call", "t": ti, "kind": kind, "s": rng.choice(seeds), "refit": rng.choice([1, 1, 2, 3])})
+                ops.append({"op": "call", "t": ti, "kind": kind, "s": rng.choice(seeds), "refit": rng.choice([1, 1, 2, 3]),
+                            # "dirty": the argument arrays are buffers the caller has used before: the same objects were
+                            # first filled with other values and passed to the same function, then refilled in place
+                            "dirty": rng.random() < 0.12})
         threads.append({"role": "actor", "ops": ops})
     if cfg["noise"]:
         threads.append({"role": "noise", "ops": [{"op": "perturb", "p": rngenv.gen_perturb(rng)} for _ in range(rng.randint(3, 10))]})
@@ -215,6 +218,13 @@ class Run:
             self.cnt.inc("probe:estimator_refitted_before_result")
         call = e["build"](g)
         tags = fp_tags(call["kwargs"], g.notes)
+        if op.get("dirty") and kind in ("int", "det") and not call.get("exempt"):
+            if not self.dirty_precall(call, seed_obj):
+                # the pre-call changed its arguments beyond what was restored (documented in-place parameter,
+                # or the known C15 finding): not a fair "same arguments" call any more -> start from fresh ones
+                g = catalog.Choices(replay=tm["choices"], seed_value=seed_obj, callback=self.callback if e["cb"] else None, dtype=tm.get("dtype"))
+                g.refit = op.get("refit", 1) if kind == "int" else 1
+                call = e["build"](g)
         st = t.local
         import tensorly.tenalg as _ta
 
@@ -236,6 +246,52 @@ class Run:
             dict(t=t.id, op=i, tmpl=op["t"], entry=tm["entry"], kind=kind, s=op["s"], out=out, inv=inv, ret=self.sched.stamp(),
                  events=st["ev"], foreign=st["foreign"], switched=st["switched"], g_before=before, g_after=after, tags=tags)
         )  # fmt: skip
+
+    def dirty_precall(self, call, seed_obj):
+        """Reuse of caller buffers: call the function once with the SAME argument objects holding other values,
+        then restore the true values in place.  A library that remembers anything about an argument by object
+        identity (id()-keyed memo, cached norms) now holds stale information; the real call that follows must
+        still give the result of a fresh-array call.  The pre-call is not part of the history."""
+        arrays = []
+
+        def walk(o, seen):
+            if isinstance(o, np.ndarray):
+                if id(o) not in seen and o.dtype.kind in "fc" and o.flags.writeable:
+                    seen.add(id(o))
+                    arrays.append(o)
+            elif isinstance(o, (list, tuple)):
+                for x in o:
+                    walk(x, seen)
+            elif isinstance(o, dict):
+                for x in o.values():
+                    walk(x, seen)
+            elif hasattr(o, "__dict__") and not callable(o):
+                for x in vars(o).values():
+                    walk(x, seen)
+
+        walk(call["kwargs"], set())
+        if not arrays:
+            return True
+        before = snapshot.flatten(call["kwargs"])
+        saved = [a.copy() for a in arrays]
+        for a in arrays:
+            a *= 1.7
+            a += 0.05
+        h = self.P.hook
+        self.P.hook = None  # no events, no perturbation, no switch inside the pre-call
+        try:
+            with np.errstate(all="ignore"):
+                call["fn"](**call["kwargs"])
+        except Exception:
+            pass
+        finally:
+            self.P.hook = h
+            for a, sv in zip(arrays, saved):
+                a[...] = sv
+        if snapshot.flatten(call["kwargs"]) != before:
+            return False
+        self.cnt.inc("probe:call_on_reused_argument_buffers")
+        return True
 
     def thread_fn(self, spec):
         def fn(t):
